@@ -275,3 +275,98 @@ def lifecycle(model, info, art):
         if n == "stop" and d["run_start"] != start_uid:
             problems.append("stop of another run")
     return ("confirmed" if problems else "contradicted"), "; ".join(problems) or f"well-formed stream {names}"
+
+
+def collect_streams(model, info, art):
+    """C45: one collect of n WritesStreamAssets detectors on a pre-declared stream, with the indices / counter of the counter-model"""
+    from event_model import StreamRange, EventModelValueError
+    n, first = int(info.get("n", 2)), bool(info.get("first", True))
+
+    def val(name, default):
+        try:
+            return int(model.get(name, default))
+        except (TypeError, ValueError):
+            return default
+    nxt = max(1, val("next_fly", 1))
+    asked = []
+
+    class Det:
+        parent = None
+
+        def __init__(self, i):
+            self.i, self.name = i, f"det{i}"
+            self.index = max(0, val(f"index_{i}", 5 + i))
+            self.start = max(0, val(f"start_{i}", 0))
+            self.stop = max(self.start, val(f"stop_{i}", 5))
+
+        def describe_collect(self):
+            return {f"img{self.i}": {"dtype": "array", "shape": [1], "source": "x", "external": "STREAM:"}}
+
+        def read_configuration(self):
+            return {}
+
+        def describe_configuration(self):
+            return {}
+
+        def kickoff(self):
+            pass
+
+        def complete(self):
+            pass
+
+        def get_index(self):
+            return self.index
+
+        def collect_asset_docs(self, index=None):
+            asked.append(index)
+            if first:
+                yield "stream_resource", {"uid": f"sr{self.i}", "data_key": f"img{self.i}", "mimetype": "x", "uri": "file://x", "parameters": {}}
+            yield "stream_datum", {"uid": f"sr{self.i}/0", "stream_resource": f"sr{self.i}", "descriptor": "",
+                                   "indices": StreamRange(start=self.start, stop=self.stop), "seq_nums": StreamRange(start=0, stop=0)}
+    dets = [Det(i) for i in range(n)]
+    b, out = _bundler(False)
+    res = {}
+
+    async def go():
+        await b.open_run(Msg("open_run"))
+        await b.declare_stream(Msg("declare_stream", None, *dets, name="fly", collect=True))
+        first_counter = b._sequence_counters["fly"]
+        b._sequence_counters["fly"] = nxt
+        if not first:
+            for d in dets:
+                b._stream_resource_data_keys[f"sr{d.i}"] = f"img{d.i}"
+        del out[:]
+        try:
+            await b.collect(Msg("collect", dets[0], *dets[1:], name="fly"))
+            res["raised"] = None
+        except Exception as e:   # noqa
+            res["raised"] = e
+        res["first_counter"] = first_counter
+    asyncio.run(go())
+    widths = [d.stop - d.start for d in dets]
+    same = len(set(widths)) == 1
+    datums = [d for nm, d in out if nm == "stream_datum"]
+    desc_uid = b._descriptors["fly"].descriptor_doc["uid"]
+    bad = []
+    if res["first_counter"] != 1:
+        bad.append(f"a new stream's counter starts at {res['first_counter']}")
+    if res["raised"] is not None:
+        if not isinstance(res["raised"], EventModelValueError) or same or b._sequence_counters["fly"] != nxt:
+            bad.append(f"collect raised {res['raised']!r} (widths {widths}, counter {b._sequence_counters['fly']} from {nxt})")
+    else:
+        if not same and all(x > 0 for x in widths):
+            bad.append(f"detectors declaring different widths {widths} were accepted")
+        want = None if n == 1 else min(d.index for d in dets)
+        if asked != [want] * n:
+            bad.append(f"detectors were asked to advance to {asked}, expected {[want] * n}")
+        for d, doc in zip(dets, datums):
+            if (doc["seq_nums"]["start"], doc["seq_nums"]["stop"]) != (nxt, nxt + d.stop - d.start) or \
+                    (doc["indices"]["start"], doc["indices"]["stop"]) != (d.start, d.stop) or doc["descriptor"] != desc_uid:
+                bad.append(f"stream_datum {doc} (counter was {nxt}, detector indices [{d.start}, {d.stop}))")
+        if len(datums) != n:
+            bad.append(f"{len(datums)} stream_datums emitted for {n} detectors")
+        if same and b._sequence_counters["fly"] != nxt + widths[0]:
+            bad.append(f"counter went from {nxt} to {b._sequence_counters['fly']} for a collect of width {widths[0]}")
+    if bad:
+        return "confirmed", "; ".join(bad)
+    return "contradicted", f"n={n} first={first} next={nxt} widths={widths} asked={asked}: all clauses hold natively"
